@@ -549,7 +549,8 @@ class Manager:
             channels = (None,)
 
         for channel in channels:
-            _on_event_handler = self.addHandler(handler(event_name, channel=channel)(_on_event))
+            # Must see the event before any handler that could stop it
+            _on_event_handler = self.addHandler(handler(event_name, channel=channel, priority=float('inf'))(_on_event))
             _on_done_handler = self.addHandler(handler('%s_done' % event_name, channel=channel)(_on_done))
             if state.timeout >= 0:
                 _on_tick_handler = state.tick_handler = self.addHandler(handler('generate_events', channel=channel)(_on_tick))
